@@ -560,7 +560,7 @@ def make_case(seed):
 
 
 def plan(tier, seed):
-    n = 160 if tier == "quick" else 4000
+    n = 160 if tier == "quick" else 24000
     nshards = 8 if tier == "quick" else 16
     per = n // nshards
     return [{"start": seed * 1000003 + i * per, "count": per} for i in range(nshards)]
